@@ -456,17 +456,22 @@ func (rm *room) propose(i int, actor user, before map[ref.Key]string) (typ strin
 		typ, sk, content = "m.room.aliases", world.Str(name), map[string]any{"aliases": []any{fmt.Sprintf("#a%d:%s", i, actor.srv.Name)}}
 		r.Probe("aliases_event")
 	case 8: // a third-party invite is published, replaced (other identity key) or revoked
-		tok := sim.Pick(t, []string{"tokA", "tokB"})
+		tok := pickToken(t)
 		typ, sk = spec.MRoomThirdPartyInvite, world.Str(tok)
 		if t.Chance(250) {
 			content = map[string]any{} // revoked
 			r.Probe("third_party_invite_revoked")
 		} else {
 			pub := base64.RawStdEncoding.EncodeToString(identityKey(t.Intn(2)).Public().(ed25519.PublicKey))
+			if t.Chance(60) {
+				// a published key that is no ed25519 key at all (wrong length)
+				pub = sim.Pick(t, []string{"AAAA", "", pub[:20], pub + "AAAA"})
+				r.Probe("third_party_invite_with_key_of_wrong_length")
+			}
 			content = map[string]any{"display_name": "x", "key_validity_url": "https://id.example/valid", "public_key": pub, "public_keys": []any{map[string]any{"public_key": pub, "key_validity_url": "https://id.example/valid"}}}
 		}
 	case 9: // a third-party invite is exchanged for a membership invite
-		tok := sim.Pick(t, []string{"tokA", "tokB"})
+		tok := pickToken(t)
 		mxid := other.id
 		if !honest && t.Chance(300) {
 			mxid = actor.id // signed for somebody else
@@ -577,7 +582,7 @@ func (rm *room) propose(i int, actor user, before map[ref.Key]string) (typ strin
 		// third_party_invite block (a join keeping the block of the invite it
 		// follows up, say): the published invite it names is among the state
 		// its verdict depends on all the same
-		tok := sim.Pick(t, []string{"tokA", "tokB"})
+		tok := pickToken(t)
 		if signed, err := gmsl.SignJSON("id.example", "ed25519:0", identityKey(t.Intn(2)), []byte(fmt.Sprintf(`{"mxid":%q,"token":%q}`, *sk, tok))); err == nil {
 			c["third_party_invite"] = map[string]any{"display_name": "x", "signed": json.RawMessage(signed)}
 			r.Probe("third_party_invite_block_on_non_invite_membership")
@@ -589,6 +594,16 @@ func (rm *room) propose(i int, actor user, before map[ref.Key]string) (typ strin
 		r.Fault("byzantine_auth_events")
 	}
 	return
+}
+
+// pickToken draws the token of a third-party invite: two ordinary ones and,
+// rarely, the empty string (a legal state key; the library's own rule for
+// naming the needed state calls an empty token missing).
+func pickToken(t *sim.Tape) string {
+	if t.Chance(60) {
+		return ""
+	}
+	return sim.Pick(t, []string{"tokA", "tokB"})
 }
 
 // identityKey returns one of two fixed identity-server keys (third-party invites).
